@@ -18,13 +18,13 @@ import (
 	"encoding/base64"
 	"encoding/binary"
 	"encoding/json"
+	"flag"
 	"fmt"
 	"io"
 	"math"
 	"net"
 	"net/http"
 	"net/http/httptest"
-	"flag"
 	"os"
 	"os/exec"
 	"path/filepath"
@@ -272,10 +272,22 @@ type c19Snap struct {
 	CacheExp int64
 }
 
+// c19Canon: canonical form of a message for equality (uncompressed wire format).
+func c19Canon(m *dns.Msg) string {
+	c := m.Compress
+	m.Compress = false
+	b, err := m.Pack()
+	m.Compress = c
+	if err != nil {
+		return "unpackable: " + m.String()
+	}
+	return string(b)
+}
+
 func c19Snapshot(c *Cache) map[string]c19Snap {
 	out := map[string]c19Snap{}
 	c.backend.Range(func(k key, v *item, exp time.Time) error {
-		out[string(k)] = c19Snap{Msg: v.resp.String(), Stored: v.storedTime.UnixNano(), MsgExp: v.expirationTime.UnixNano(), CacheExp: exp.UnixNano()}
+		out[string(k)] = c19Snap{Msg: c19Canon(v.resp), Stored: v.storedTime.UnixNano(), MsgExp: v.expirationTime.UnixNano(), CacheExp: exp.UnixNano()}
 		return nil
 	})
 	return out
@@ -315,7 +327,7 @@ func c19Decode(d []byte) (map[string]c19Snap, []int, int, error) {
 			if err := m.Unpack(e.GetMsg()); err != nil {
 				return nil, nil, 0, err
 			}
-			out[string(e.GetKey())] = c19Snap{Msg: m.String(), Stored: time.Unix(e.GetMsgStoredTime(), 0).UnixNano(),
+			out[string(e.GetKey())] = c19Snap{Msg: c19Canon(m), Stored: time.Unix(e.GetMsgStoredTime(), 0).UnixNano(),
 				MsgExp: time.Unix(e.GetMsgExpirationTime(), 0).UnixNano(), CacheExp: time.Unix(e.GetCacheExpirationTime(), 0).UnixNano()}
 		}
 	}
@@ -1161,6 +1173,9 @@ func c19Supervise(t *testing.T) {
 			inAny = raw
 		}
 	}
+	if raw, ok := vr.ReplayInput(); ok && in.Scenario == "" {
+		json.Unmarshal(raw, &in)
+	}
 	fam := in.Scenario
 	if fam == "" {
 		fam = "load"
@@ -1310,6 +1325,7 @@ func TestVerifC19(t *testing.T) {
 			maxDeltas = n
 		}
 	}
+	fmt.Printf("phase roundtrip done at %.1fs\n", time.Since(start).Seconds())
 	res.Bounds["roundtrip_units"] = unit
 	res.Bounds["roundtrip_max_reload_delays_per_contents"] = maxDeltas
 	if stop {
@@ -1325,7 +1341,7 @@ func TestVerifC19(t *testing.T) {
 		}
 	}
 	res.Bounds["trunc"] = "every prefix (0..len-1 bytes) of every dump"
-	res.Bounds["flip"] = fmt.Sprintf("every single-bit flip of dumps with n in %v; other dumps: every byte XOR 0xff at stride 7", func() []int {
+	res.Bounds["flip"] = fmt.Sprintf("every single-bit flip of dumps with n in %v; other dumps: every single-bit flip of every 5th byte", func() []int {
 		var l []int
 		for _, n := range ns {
 			if flipAll[n] {
@@ -1419,13 +1435,16 @@ func TestVerifC19(t *testing.T) {
 						}
 					}
 				} else {
-					for i := 0; i < len(dump) && !expired(); i += 7 {
-						try(i, 0xff, "flip")
+					for i := 0; i < len(dump) && !expired(); i += 5 {
+						for b := 0; b < 8; b++ {
+							try(i, 1<<b, "flip")
+						}
 					}
 				}
 			}
 		}
 	}
+	fmt.Printf("phase trunc/flip done at %.1fs\n", time.Since(start).Seconds())
 	res.Bounds["dump_units"] = dunit
 	if stop {
 		notes = append(notes, "budget expired during trunc/flip")
@@ -1464,6 +1483,7 @@ func TestVerifC19(t *testing.T) {
 		}
 	}
 
+	fmt.Printf("phase tiny done at %.1fs\n", time.Since(start).Seconds())
 	// ---- adversarial files
 	advs := c19Adversarial(thorough)
 	var names []string
@@ -1490,6 +1510,7 @@ func TestVerifC19(t *testing.T) {
 	}
 	res.Bounds["adversarial"] = names
 
+	fmt.Printf("phase adv done at %.1fs\n", time.Since(start).Seconds())
 	// ---- periodic dump to a file and its crash points
 	for i, lazy := range lazies {
 		if !e.Mine(int64(i+5)) || expired() {
@@ -1500,6 +1521,7 @@ func TestVerifC19(t *testing.T) {
 		}
 	}
 
+	fmt.Printf("phase dumpfile done at %.1fs\n", time.Since(start).Seconds())
 	if stop {
 		res.Exhaustive = false
 		res.Notes = append(res.Notes, notes...)
